@@ -108,6 +108,24 @@ func genC12(t *rapid.T) CaseC12 {
 	if rapid.IntRange(0, 5).Draw(t, "overlap") == 0 {
 		return genOverlapC12(t)
 	}
+	if rapid.IntRange(0, 11).Draw(t, "emptykey") == 5 {
+		// the empty string as a member name: in the receiver (shorthand pairs keep the old path, "a..b") and in new paths
+		var c CaseC12
+		var st []Step
+		c.Map, st, _ = boostEmptyKey(t)
+		p := PairC12{Old: st}
+		if hasWildcard(st) || countIndexed(st) > 0 || rapid.Bool().Draw(t, "eknew") {
+			p.New = []string{"n1", "", "n2"}
+			if rapid.Bool().Draw(t, "eklead") {
+				p.New = []string{"", "n1"}
+			}
+		}
+		c.Pairs = []PairC12{p}
+		if rapid.Bool().Draw(t, "eksecond") {
+			c.Pairs = append(c.Pairs, PairC12{Old: []Step{{rapid.SampledFrom(shapeKeys).Draw(t, "ek2"), -1}}, New: []string{"q", "", "", "r"}})
+		}
+		return c
+	}
 	sh := genRootShape(t, false)
 	c := CaseC12{Map: instantiate(t, sh).(map[string]interface{})}
 	np := rapid.IntRange(1, 5).Draw(t, "npairs")
